@@ -30,4 +30,19 @@ theorem scoreBound_ofEntries {es : List Entry} {strat : Strategy} {c : Compositi
     (h : ∀ e ∈ es, e.2.freq ≤ 8388608) : ScoreBound (Dict.ofEntries es) strat c :=
   ⟨hl, fun _ _ hp => h _ (mem_ofEntries_lookup.mp hp)⟩
 
+/-- with a word for every syllable there is no fallback interval: `ProvS` is `Prov` -/
+theorem provS_hasWord {d : Dict} {strat : Strategy} {c : Composition} (hw : HasWord d strat c) {iv : Interval}
+    (h : ProvS d strat c iv) : Prov d strat c iv := by
+  induction h with
+  | base hp => exact hp
+  | spell hs =>
+    obtain ⟨i, k, h1, h2, _, _⟩ := hs
+    exact absurd h2 (hw k (List.mem_of_getElem? h1))
+  | glue _ _ hg ih₁ ih₂ => exact Prov.glue ih₁ ih₂ hg
+
+theorem hasWord_not_spelled {d : Dict} {strat : Strategy} {c : Composition} (hw : HasWord d strat c) {iv : Interval} :
+    ¬ Spelled d strat c iv := by
+  rintro ⟨i, k, h1, h2, _, _⟩
+  exact hw k (List.mem_of_getElem? h1) h2
+
 end Chewing.Conv
